@@ -30,7 +30,7 @@ PROPS = {
         "assumptions": ["all SubRule methods are invoked on the same SubRule object (cells named by field)"],
     },
     "C05": {
-        "rules": [("SUP-1", sup.sup1), ("SUP-2", sup.sup2), ("SUP-4", sup.sup4), ("SUP-5", sup.sup5)],
+        "rules": [("SUP-1", sup.sup1), ("SUP-2", sup.sup2), ("SUP-4", sup.sup4), ("SUP-5", sup.sup5), ("SUP-7", r5.sup7)],
         "explanation": "Decides the table clauses of C05 by decision-table extraction: the matchers and setters of stress / sec.stress / long / overlong are small decision "
                        "trees over two finite domains (stress in {unstressed, primary, secondary}; length in {short, long, overlong}); the trees are read off the HIR (comparison "
                        "operators and constants, `while seg_len < N` / `> N` clamps, constants assigned to `.stress`, the true/false and Positive/Negative arms) and tabulated. "
@@ -76,7 +76,7 @@ PROPS = {
     },
     "C14": {
         "controls": ["FLW-guard"],
-        "rules": [("FLW-4", flw2.flw4)],
+        "rules": [("FLW-4", flw2.flw4), ("FLW-4g", r5.flw4g)],
         "explanation": "Decides the write-effect clauses of C14 on MIR: Segment::apply_seg_mods cannot reach a syllable by type; in Syllable::apply_syll_mods every write "
                        "of stress (tone) is reachable only on a Some edge of mods.stress[i] (mods.tone) and nothing else is written; in apply_supras every insertion/"
                        "removal of segment copies is reachable only on a Some edge of mods.length[i]; Syllable::apply_seg_mods only maps the segment-level function "
@@ -97,7 +97,7 @@ PROPS = {
         "assumptions": ["borrow checker: a function holding only &Word of a Freeze type cannot mutate it"],
     },
     "C15": {
-        "rules": [("FLW-2", flw.flw2), ("SHR-2", tab2.shr2), ("RT-1", tab2.rt1)],
+        "rules": [("FLW-2", flw.flw2), ("SHR-2", tab2.shr2), ("RT-1", tab2.rt1), ("SHR-4", r5.shr4)],
         "explanation": "RT-1 (sibling clause): Word::render, used when romanisers are given, opens syllables with exactly the marks of the default renderer render_normal ('each printed word is the default rendering with the matched segments replaced'). SHR-2: in AliasParser::get_deromaniser / get_romaniser every Transformation takes its input from the input term list and its output from the output "
                        "term list, element i selected under that list's own `len() == 1` test (or through a cycled iterator), so `a, b > x` pairs (a,x),(b,x). "
                        "FLW-2 decides the noninterference clause of C15 exactly as an information-flow statement: Transformation vectors are coloured by the AliasKind constant "
@@ -153,7 +153,7 @@ PROPS = {
     },
     "C09": {
         "controls": ["BIT"],
-        "rules": [("RT-1", tab2.rt1), ("RT-2", tab2.rt2), ("TAB-6", tab2.tab6), ("FLW-6", flw2.flw6), ("BIT-2", bit.bit2), ("FLW-7", flw2.flw7), ("RT-3", r5.rt3)],
+        "rules": [("RT-1", tab2.rt1), ("RT-2", tab2.rt2), ("TAB-6", tab2.tab6), ("FLW-6", flw2.flw6), ("BIT-2", bit.bit2), ("FLW-7", flw2.flw7), ("RT-3", r5.rt3), ("RT-4", r5.rt4)],
         "explanation": "Decides three necessary conditions of the text round trip, none of them the round trip itself. RT-1 writer/reader agreement of the suprasegmental notation: "
                        "Word::render_normal writes primary stress as the mark Word::setup reads as Primary, secondary likewise, opens every non-initial unstressed syllable with '.', "
                        "writes a segment equal to its predecessor as 'ː' (read back as a repetition of the last segment) and a non-zero tone as its decimal digits (parsed back into "
@@ -166,7 +166,7 @@ PROPS = {
     },
     "C10": {
         "controls": ["PUR-3"],
-        "rules": [("PUR-3", pur.pur3), ("PUR-4", pur.pur4), ("PUR-5", pur.pur5), ("RT-3", r5.rt3)],
+        "rules": [("PUR-3", pur.pur3), ("PUR-4", pur.pur4), ("PUR-5", pur.pur5), ("RT-3", r5.rt3), ("RT-4", r5.rt4)],
         "explanation": "Decides the statelessness / grouping clause of C10: applying a rule list is a left fold `word = rule.apply(word)?` over groups and rules in "
                        "order with no early exit, no adaptor and no other loop-carried state (PUR-5); the step depends only on its arguments: no global state "
                        "(PUR-3), binding tables fresh or reset (PUR-4). Hence regrouping and empty groups cannot matter.",
@@ -203,7 +203,7 @@ PROPS = {
     },
     "C13": {
         "controls": ["SYN-1", "SYN-2"],
-        "rules": [("TAB-5", tab2.tab5), ("TAB-6", tab2.tab6), ("TAB-6b", tab2.tab6b), ("SYN-1", tab2.syn1), ("SYN-2", tab2.syn2), ("NRM-1", r5.nrm1)],
+        "rules": [("TAB-5", tab2.tab5), ("TAB-6", tab2.tab6), ("TAB-6b", tab2.tab6b), ("SYN-1", tab2.syn1), ("SYN-2", tab2.syn2), ("SYN-3", r5.syn3), ("NRM-1", r5.nrm1)],
         "explanation": "Decides the table and follow-set clauses of C13: the feature-name synonym tables of the two lexers are equal maps, without "
                        "duplicate or unreachable spellings and covering FEAT_VARIANTS; word-level respellings (Word::to_ipa, Word::new replace chains, "
                        "lexer cur_as_ipa siblings, americanist inverse in render_normal, render marks ⊆ Word::setup tests) equal the manual's tables; every character of the word text that enters a grapheme lookup buffer in Word::fill_segments passes through Word::to_ipa (TAB-6b: the aliases apply at every position, also after `^`); "
